@@ -22,9 +22,9 @@ def classify(req, obs, rule):
 
 PROP = {
     "id": "C05",
-    "lean_targets": ["WmModel.Props.C05Serial", "WmModel.Props.C05Order", "WmModel.Props.C05Prod", "WmModel.Props.C05Live", "WmModel.Props.C04Exit", "WmModel.Props.C05Reg", "WmModel.Props.C05"],
+    "lean_targets": ["WmModel.Props.C05SerialNeg", "WmModel.Props.C05Serial", "WmModel.Props.C05Order", "WmModel.Props.C05Prod", "WmModel.Props.C05Live", "WmModel.Props.C04Exit", "WmModel.Props.C05Reg", "WmModel.Props.C05"],
     "audit_module": "Audit.C05",
-    "theorems": ["Wm.GcReg.dispatcher_waited_for", "Wm.GcProd.blocking_senders_serialised", "Wm.GcProd.blocking_deliveries_in_publish_order", "Wm.GcProd.serial_witness", "Wm.GcSub.ended_sender_deliveries_first", "Wm.GcSub.deliveries_in_exit_order", "Wm.GcProd.blocking_publish_returns_only_after_ack", "Wm.GcProd.prod_witness", "Wm.GcProd.prod_sender_done_waits_for_msub", "Wm.GcReg.nonblocking_no_deadlock", "Wm.GcReg.blocking_deadlock_needs_nested_publish", "Wm.GcReg.closing_no_deadlock", "Wm.GcReg.d11_has_nested_publish", "Wm.GcSub.acked_exit_means_delivered_and_acked", "Wm.GcSub.unacked_exit_means_closing", "Wm.GcSub.sender_exits_once", "Wm.GcReg.blocking_order", "Wm.GcReg.blocking_publish_waits", "Wm.GcReg.blocking_send_then_wait", "Wm.GcReg.blocking_deadlock_witness", "Wm.GcReg.blocking_without_pending_writer_returns", "Wm.GcReg.writer_unique", 
+    "theorems": ["Wm.GcReg.dispatcher_waited_for", "Wm.GcProd.blocking_senders_serialised", "Wm.GcProd.blocking_deliveries_in_publish_order", "Wm.GcProd.serial_witness", "Wm.GcProd.nonblocking_order_not_guaranteed_witness", "Wm.GcSub.ended_sender_deliveries_first", "Wm.GcSub.deliveries_in_exit_order", "Wm.GcProd.blocking_publish_returns_only_after_ack", "Wm.GcProd.prod_witness", "Wm.GcProd.prod_sender_done_waits_for_msub", "Wm.GcReg.nonblocking_no_deadlock", "Wm.GcReg.blocking_deadlock_needs_nested_publish", "Wm.GcReg.closing_no_deadlock", "Wm.GcReg.d11_has_nested_publish", "Wm.GcSub.acked_exit_means_delivered_and_acked", "Wm.GcSub.unacked_exit_means_closing", "Wm.GcSub.sender_exits_once", "Wm.GcReg.blocking_order", "Wm.GcReg.blocking_publish_waits", "Wm.GcReg.blocking_send_then_wait", "Wm.GcReg.blocking_deadlock_witness", "Wm.GcReg.blocking_without_pending_writer_returns", "Wm.GcReg.writer_unique", 
         "Wm.GcSub.one_unsettled_inv", "Wm.GcSub.unsettled_is_owned", "Wm.GcSub.no_send_while_unsettled",
         "Wm.GcSub.never_panics", "Wm.GcSub.close_flags_consistent", "Wm.GcSub.holder_can_leave_when_closing",
     ],
